@@ -43,6 +43,19 @@ func electionProfile() Profile {
 	return p
 }
 
+// asyncTermProfile aims at the window in which an async-storage node acts on
+// a term/vote that its append thread has not made durable yet.
+func asyncTermProfile() Profile {
+	p := electionProfile()
+	p.PAsync = 1
+	p.WStallThread = 6
+	p.PCrashUndurableTerm = 0.05
+	p.MaxVoters = 3
+	p.MaxJoiners, p.MaxLearners = 0, 0
+	p.WConf = 0.3
+	return p
+}
+
 func crashProfile() Profile {
 	p := DefaultProfile()
 	p.WCrash = 8
@@ -141,13 +154,18 @@ func SpecFor(id string) PropSpec {
 	case "C01":
 		return one(crashProfile(), "C01-crash")
 	case "C02":
-		return one(electionProfile(), "C02-election", "simultaneous_candidates")
+		s.Profiles = []Profile{withName(electionProfile(), "C02-election"), withName(asyncTermProfile(), "C02-asyncterm"), withName(d, "C02-default")}
+		s.Shares = []float64{0.5, 0.25, 0.25}
+		s.Mandatory = []string{"simultaneous_candidates"}
+		return s
 	case "C03":
 		return one(electionProfile(), "C03-election")
 	case "C04":
 		return one(electionProfile(), "C04-election")
 	case "C05":
-		return one(crashProfile(), "C05-crash")
+		s.Profiles = []Profile{withName(crashProfile(), "C05-crash"), withName(asyncTermProfile(), "C05-asyncterm"), withName(d, "C05-default")}
+		s.Shares = []float64{0.5, 0.25, 0.25}
+		return s
 	case "C06":
 		return one(confProfile(), "C06-conf")
 	case "C07":
